@@ -152,6 +152,9 @@ def default_result(stub, k, fname, args):
     if fname == "proc_basic_info":
         return record(stub, k, fname, pid, BASIC_INFO[plat])
     if fname == "pids":
+        if plat.startswith("openbsd"):
+            # the OpenBSD kernel does not list PID 0 (psutil re-adds it)
+            return sorted(p_ for p_ in k.procs if p_ != 0)
         return sorted(k.procs)
     if fname == "pid_exists":
         return pid in k.procs
@@ -479,8 +482,9 @@ class Foreign(EngineBase):
         return {"procs": procs, "files": files, "procfs_flavor": "static",
                 "self_pid": 1000, "if_addrs": [
                     ["eth0", 2, "10.0.0.5", "255.255.255.0", None, None],
-                    ["eth0", 10, "fe80::1", "ffff:ffff:ffff:ffff::", None,
-                     None],
+                    # the Windows native layer reports no netmask for IPv6
+                    ["eth0", 10, "fe80::1", None if platform == "win32"
+                     else "ffff:ffff:ffff:ffff::", None, None],
                     ["eth0", 18 if platform != "win32" else -1,
                      "aa:bb:cc" if platform != "win32" else "aa-bb-cc",
                      None, None, None]]}, pid
@@ -642,6 +646,15 @@ class Foreign(EngineBase):
                     5, 1314) and platform == "win32":
                 V("C20.no_bare", ftags + ["winerror"], "%s leaked %r "
                   "(winerror %s)" % (method, e, e.winerror))
+            elif classes == {"other"} and len(fired) == 1 and pid == 0 and \
+                    state_end == "live" and platform.startswith(
+                        ("freebsd", "openbsd", "netbsd", "sunos")) and \
+                    isinstance(e, OSError):
+                # the one documented exception: an otherwise unexplained OS
+                # error on the existing PID 0 is reported as AccessDenied
+                V("C20.pid0_exception", ftags + [type(e).__name__],
+                  "%s on the existing PID 0 let %r through instead of "
+                  "raising AccessDenied" % (method, e))
             elif classes == {"other"} and len(fired) == 1:
                 inj = stub.injected
                 if inj is None:
@@ -733,10 +746,7 @@ class Foreign(EngineBase):
                     V("C20.frontend", ["win_broadcast", "ipv4"],
                       "10.0.0.5/255.255.255.0 -> broadcast %r, expected "
                       "'10.0.0.255'" % (nt.broadcast,))
-                if nt.address == "fe80::1" and not nt.broadcast:
-                    V("C20.frontend", ["win_broadcast", "ipv6"],
-                      "fe80::1 with a netmask -> broadcast %r" %
-                      (nt.broadcast,))
+
         # documented names
         want = ["cpu_count", "cpu_times", "virtual_memory", "Process",
                 "pids", "net_if_addrs", "AF_LINK", "getloadavg"]
